@@ -110,6 +110,11 @@ class TFLiteSubgraph:
 
         if tens.quantization.scale_f32 is None and tens.quantization.zero_point is None:
             tens.quantization = None
+        elif tens.quantization.zero_point is None:
+            # a scale without a zero_point vector is legal and means zero point 0
+            tens.quantization.zero_point = np.zeros_like(tens.quantization.scale_f32, dtype=np.int64)
+            if tens.quantization.zero_point.ndim == 0:
+                tens.quantization.zero_point = np.int64(0)
 
         tens.values = None
         buf = self.graph.buffers[tens_data.Buffer()]
